@@ -149,3 +149,42 @@ def track_dispatch_wiring(a0: bool, a1: bool, a2: bool, b0: bool, b1: bool, b2: 
         for j, i in enumerate(want[k]):
             ok = ok and lst[j].kind == k and lst[j].line == W_LINES[i]
     return done(ok)
+
+
+# ---------------------------------------------------------------------------------------------
+# C14 "skipped locally": the outcome for a line depends only on this call's kinds, not on what an
+# earlier call (another section, another chart) decided about a line with the same text
+# ---------------------------------------------------------------------------------------------
+
+
+def dispatcher_history(a0: bool, a1: bool, b0: bool, b1: bool, c0: bool, c1: bool, d0: bool, d1: bool,
+                       same_kinds: bool) -> bool:
+    """
+    post: _
+    """
+    lines = LINES[:2]
+    acc1 = [[a0, a1, False, False], [b0, b1, False, False]]
+    acc2 = [[c0, c1, False, False], [d0, d1, False, False]]
+    kinds1 = [_mk_kind(k, acc1[k]) for k in range(2)]
+    kinds2 = kinds1 if same_kinds else [_mk_kind(k, acc2[k]) for k in range(2)]
+    if same_kinds:
+        acc2 = acc1
+    log = H.CountingLogger()
+    with H.patched((T, "logger", log)):
+        T.parse_data_from_chart_lines(tuple(kinds1), list(lines))      # earlier section / chart
+        n1 = len(log.warnings)
+        m = T.parse_data_from_chart_lines(tuple(kinds2), list(lines))
+    ok = True
+    nrej = 0
+    for i in range(2):
+        owner = None
+        for k in range(2):
+            if acc2[k][i] and owner is None:
+                owner = k
+        if owner is None:
+            nrej += 1
+        for k in range(2):
+            present = any(d.line is lines[i] or d.line == lines[i] for d in m[kinds2[k]])
+            ok = ok and present == (owner == k)
+    ok = ok and len(log.warnings) - n1 == nrej
+    return done(ok)
